@@ -49,6 +49,28 @@ CHECKS = {
          'solo re-runs.',
          'TLC model checking + two-way conformance: -simulate behaviours replayed under a step controller, recorded '
          'executions validated by OptionsTrace.tla; auxiliary registry log via a PFST_VERIF-guarded run-time wrapper'),
+ 'C06': ('model_checking', '4-C06',
+         'Trace validation against an explicit TLA+ location specification (LocLaws / LocFind / LocTrace): every node of '
+         'every corpus and extra program x 11 layout and multi-byte variants, plus trees after random edit steps, is judged '
+         'by TLC on the recorded loc/bloc/pars()/byte accessors against CPython ast positions and tokenize tokens; find_*loc '
+         'answers for node spans, token gaps and random rectangles are judged against brute-force set definitions, which are '
+         'model-checked well-defined and refined by the implementation loops on all span trees <= 4 (thorough 5) nodes.',
+         'TLC model checking (LocFindMC) + TLC trace validation (LocTrace) of recorded observations with stdlib-only oracles'),
+ 'C09': ('model_checking', '4-C09',
+         'Explicit TLA+ specification of Python grouping written from python.gram (Prec.tla); TLC proves exhaustively that '
+         'its level arithmetic equals a derivation over the grammar productions for all 142 slots x 71 kinds and emits the '
+         'table; every row is bound to CPython by ast.parse (0 disagreements) and the real replace/put/assignment is executed '
+         'for every valid row x target layouts x child layouts x code forms; TLC judges Carried / Regroup / ParsWhenNeeded / '
+         'NeededParsKept on the recorded facts.',
+         'TLC model checking with spec-generated exhaustive case table, two-sided conformance (spec<->CPython, pfst<->spec) '
+         'by TLC trace validation'),
+ 'C19': ('model_checking', '4-C19',
+         'TLC model-checks the coercion life-cycle (identity / copy / consume / put) on a kind/mode subset, proves totality '
+         'of the full 115x139 (kind x mode) matrix and emits it; every cell is executed on pfst with catalogue, layout, hosted, '
+         'repository and random operands; every call is judged by TLC (CoerceTrace): kind in KindsOf(mode), live tree equals '
+         'CPython parse of the result in the spec-defined embedding incl. positions, leaf sequence, identity, formatted vs '
+         'pure AST, operand untouched, put equivalence, coerce=False refusal and atomicity.',
+         'TLA+/TLC model checking of CoerceMC + exhaustive spec-generated matrix replay + batched TLC trace validation'),
 }
 
 NOT_YET = {}
